@@ -292,7 +292,7 @@ func (g *gen) history(maxOps int) {
 	}
 	ops := r.Range(2, maxOps)
 	for i := 0; i < ops; i++ {
-		switch c := r.Intn(31); {
+		switch c := r.Intn(33); {
 		case c < 11: // append
 			a := acc
 			if r.Chance(1, 3) {
@@ -387,6 +387,36 @@ func (g *gen) history(maxOps int) {
 				}
 			}
 			g.out(g.fresh(), g.val(a), "is "+vn(a)+" "+vn(b))
+		case c >= 31: // errors.As(a, &T) with T the type of something a can reach (or of any variable)
+			a := g.anyVar()
+			b := g.anyVar()
+			if r.Chance(3, 4) {
+				for v, d := g.val(a), r.Range(1, 4); d > 0; d-- {
+					switch v.kind {
+					case kRef:
+						v = g.s.nodes[v.id].cause
+					case kFwrap:
+						v = *v.inner
+					}
+					for k2, w := range g.s.vars {
+						if w == v && k2 < g.nextV && v.kind != kNil {
+							b = k2
+						}
+					}
+				}
+			}
+			// the simulation only bounds lengths: exact for *Error targets, "some single foreign error" otherwise
+			res := sval{kind: kPlain}
+			if bk := g.val(b).kind; bk == kRef || bk == kTnil {
+				res = g.val(a)
+				for res.kind == kFwrap {
+					res = *res.inner
+				}
+				if res.kind != kRef && res.kind != kTnil {
+					res = sval{kind: kNil}
+				}
+			}
+			g.out(g.fresh(), res, "asf "+vn(a)+" "+vn(b))
 		case c < 26: // errors.As(a, &*Error)
 			a := g.anyVar()
 			v := g.val(a)
